@@ -143,6 +143,44 @@ func runC06(c *Check) {
 			}
 		}
 	}
+	// the watermark is encoded and decoded with the same byte order
+	{
+		orders := func(names []string, put bool) map[string]bool {
+			out := map[string]bool{}
+			for _, fn := range p.Funcs {
+				pk := fnPkg(fn)
+				if pk == nil || pk.Pkg.Path() != rootPath+"/block" || !strings.Contains(fn.String(), "pendingBase[") {
+					continue
+				}
+				for n := range callNames(fn) {
+					if !strings.HasPrefix(n, "(encoding/binary.") {
+						continue
+					}
+					isPut := strings.Contains(n, ").Put") || strings.Contains(n, ").Append")
+					if isPut == put && strings.HasSuffix(n, "int64") {
+						out[n[len("(encoding/binary.") : strings.Index(n, ")")]] = true
+					}
+				}
+				for _, cal := range staticCalleesOf(p, fn) {
+					for n := range callNames(cal) {
+						if strings.HasPrefix(n, "(encoding/binary.") && strings.HasSuffix(n, "int64") {
+							isPut := strings.Contains(n, ").Put") || strings.Contains(n, ").Append")
+							if isPut == put {
+								out[n[len("(encoding/binary.") : strings.Index(n, ")")]] = true
+							}
+						}
+					}
+				}
+			}
+			return out
+		}
+		w, r := sortedKeys(orders(nil, true)), sortedKeys(orders(nil, false))
+		if len(w) == 1 && len(r) == 1 && w[0] == r[0] {
+			c.OK("C06-R1", "watermark-codec ⟂ same-byte-order", "", "", "written and read as "+w[0]+" uint64", true)
+		} else {
+			c.Bad("C06-R1", "watermark-codec ⟂ same-byte-order", "", "", fmt.Sprintf("the persisted watermark is written as %v but read as %v: after a restart the tracker loads a byte-swapped height far above the store height; the pending count underflows and block production is refused for good", w, r), nil)
+		}
+	}
 	c.MinInstances("C06-R1", 2)
 
 	// ---- R2a: who calls the setter
@@ -1087,6 +1125,8 @@ func runC07(c *Check) {
 		}
 	}
 	c.MinInstances("C07-R5", 4)
+	c.Doc("C07-R6", "VP: sibling agreement of the cache save and load paths.")
+	ruleCachePathsAgree(c, p)
 }
 
 // ruleLoopSkipsOnlyWhenOwnTrackerEmpty (C06-R8 / C08-R3): in a submission loop a tick may be
@@ -1155,4 +1195,50 @@ func submitterCallers(p *Prog) []*ssa.Function {
 	}
 	sort.Slice(out, func(i, j int) bool { return out[i].String() < out[j].String() })
 	return out
+}
+
+// ruleCachePathsAgree (C07-R6): the shutdown caches (which hold the DA-inclusion marks) are
+// loaded from exactly the paths they are saved to.
+func ruleCachePathsAgree(c *Check, p *Prog) {
+	rule := "C07-R6"
+	savers := funcsCalling(p, rootPath+"/block", func(n string) bool { return strings.HasSuffix(n, "Cache[_]).SaveToDisk") })
+	loaders := funcsCalling(p, rootPath+"/block", func(n string) bool { return strings.HasSuffix(n, "Cache[_]).LoadFromDisk") })
+	if len(savers) != 1 || len(loaders) != 1 {
+		c.Unk(rule, "cache-save/load", "", "", fmt.Sprintf("anchor lost: %d functions saving and %d loading the caches", len(savers), len(loaders)))
+		return
+	}
+	paths := func(fn *ssa.Function, suffix string) map[string]string {
+		out := map[string]string{}
+		ctx := &Ctx{Fn: fn}
+		recv := ""
+		if len(fn.Params) > 0 {
+			recv = fn.Params[0].Name()
+		}
+		for _, b := range fn.Blocks {
+			for _, in := range b.Instrs {
+				call, ok := in.(*ssa.Call)
+				if !ok || !strings.HasSuffix(commonName(call.Common()), suffix) {
+					continue
+				}
+				which := TermOf(call.Common().Args[0], ctx)
+				path := TermOf(call.Common().Args[1], ctx).String()
+				// make the receiver's name irrelevant
+				path = strings.ReplaceAll(path, recv+".", "recv.")
+				out[which.Name] = path
+			}
+		}
+		return out
+	}
+	sp, lp := paths(savers[0], "Cache[_]).SaveToDisk"), paths(loaders[0], "Cache[_]).LoadFromDisk")
+	for _, k := range sortedKeys(sp) {
+		inst := "cache " + k + " ⟂ load-path = save-path"
+		if lp[k] == sp[k] && sp[k] != "" {
+			c.OK(rule, inst, fnName(loaders[0]), p.Pos(loaders[0].Pos()), "both use "+trunc(sp[k], 100), true)
+		} else {
+			c.Bad(rule, inst, fnName(loaders[0]), p.Pos(loaders[0].Pos()), "the cache is saved to "+trunc(sp[k], 100)+" but loaded from "+trunc(lp[k], 100)+": with a configuration for which the two differ the DA-inclusion marks saved at shutdown are not found at the next start; a sequencer never re-submits or re-scans, so the DA-included height stalls for good", nil)
+		}
+	}
+	if len(sp) < 2 {
+		c.Unk(rule, "cache-paths", "", "", fmt.Sprintf("anchor lost: %d caches saved", len(sp)))
+	}
 }
